@@ -463,6 +463,9 @@ class Backend:
         order: int,
         cval: float | Callable[[AnyArray[np.float32]], Any],
     ) -> AnyArray[np.float32]:
+        if subimg.dtype.kind == "f" and subimg.dtype.itemsize not in (4, 8):
+            # float16 (MRC mode 12) or extended precision; not supported by ndimage
+            subimg = subimg.astype(np.float32)
         if callable(cval):
             _cval = cval(subimg)
         else:
